@@ -180,6 +180,7 @@ type Engine struct {
 	redirects   map[string]*ssa.Function
 	params      map[string]int
 	knownLabels map[string]bool
+	fixed       []NondetVal // concrete re-execution: nondet values in order
 }
 
 func (e *Engine) allowed(fn *ssa.Function) bool {
